@@ -158,8 +158,10 @@ def run_job(job):
         agg.notes["case_rejected_intractable"] += 1
         return agg.to_dict()
     n_runs = job["n"]
-    if ref["lines"] > 150000:
+    if ref["lines"] > 150000 and not cs.get("keep_runs"):
         n_runs = max(1, n_runs // 6)
+    elif ref["lines"] > 150000:
+        n_runs = max(1, n_runs // 3)
         agg.notes["heavy_case_runs_reduced"] += 1
     agg.notes["cases_klen_ge_50" if case.klen >= 50 else "cases_klen_lt_50"] += 1
     for i in range(job["first"], job["first"] + n_runs):
@@ -382,6 +384,12 @@ def build_cases(tier, seed):
         cases.append({"name": "%s+%s#%d" % (name, tag, j), "arch": "zen1" if isa == "x86" else arm_models[j % 4], "text": t})
     for w in corpus.windowed_cases(rng, 4 if tier == "quick" else 30):
         cases.append({"name": w["name"], "arch": w["arch"], "text": w["text"], "lines": w["lines"]})
+    # path-rich but enumerable: one worker collects thousands of raw paths (buffers, batching, caps)
+    for j in range(2 if tier == "quick" else 12):
+        isa = "x86" if j % 2 == 0 else "aarch64"
+        shape, t = corpus.gen_kernel(isa, rng, rng.choice([50, 52, 56]), "ladder", noise=False)
+        cases.append({"name": "gen/ladder-%d" % j, "arch": "zen1" if isa == "x86" else arm_models[j % 4], "text": t,
+                      "keep_runs": True})
     ngen = 22 if tier == "quick" else 200
     for j in range(ngen):
         isa = "x86" if j % 2 == 0 else "aarch64"
@@ -402,7 +410,8 @@ def build_jobs(tier, seed):
     jobs = []
     for cs in cases:
         for first in range(0, n, per):
-            jobs.append({"case": dict(cs, ref_cap=8000), "n": min(per, n - first), "first": first, "seed": seed})
+            jobs.append({"case": dict(cs, ref_cap=60000 if cs.get("keep_runs") else 8000), "n": min(per, n - first),
+                         "first": first, "seed": seed})
     rng = random.Random(derive_seed(seed, PROP, "repeat"))
     # repeated CLI runs: long kernels go through the real parallel branch of the real code
     long_cases = [c for c in cases if "+pad" in c["name"] or "+rep" in c["name"] or "-5" in c["name"] or "-6" in c["name"] or "-70" in c["name"]]
